@@ -1,6 +1,7 @@
 (* Monomorphic instances run by the correspondence driver (extracted) and by the in-kernel cross-check (vm_compute):
    labels are integer codes. Definitions only. *)
 From BG Require Import Base DirectedModel DirectedSpec UndirectedModel UndirectedSpec MultiModel WeightedModel MultiSpec ForcedSpec ConvModel TopologyModel.
+From BG Require Import PathsModel PathsCases.
 Local Open Scope Z_scope.
 (* the alphabet asked about in hasEdge(i,j,l): 0..3 for labelled graphs, the single NoLabel value otherwise *)
 Definition alpha (hs : bool) : list Z := if hs then [0; 1; 2; 3] else [0].
@@ -128,3 +129,20 @@ Definition sub_spec (und : bool) (hs : bool) (a : option (@sgraph Z)) (s so : li
            if bijection_ok s f then Some ((if und then sobs_u hs else sobs_d hs) (s_image und a s f) ++ [zmap f so]) else Some [[-8]] ] end.
 Definition d_sub_spec (hs : bool) (n : nat) (ops : list (@dop Z)) := sub_spec false hs (gsfinal rejected_code spec_step (s_init n) ops).
 Definition u_sub_spec (hs : bool) (n : nat) (ops : list (@uop Z)) := sub_spec true hs (gsfinal u_rejected_code uspec_step (s_init n) ops).
+(* ---- C11 / C12 / C19: path searches on the final graph of a history ---- *)
+Definition d_path_case (v : variant) (once : bool) (n : nat) (ops : list (@dop Z)) (s t : nat) :=
+  match gfinal (step false v) (init n) ops with None => [] | Some g => path_case (v_force_checks v) once 5000 (adj g) s t end.
+Definition u_path_case (v : variant) (once : bool) (n : nat) (ops : list (@uop Z)) (s t : nat) :=
+  match gfinal (ustep false v) (init n) ops with None => [] | Some g => path_case (v_force_checks v) once 5000 (adj g) s t end.
+Definition d_path_spec (v : variant) (n : nat) (ops : list (@dop Z)) (s t : nat) (im : path_impl) :=
+  match gfinal (step false v) (init n) ops with None => [] | Some g => path_spec (adj g) s t im end.
+Definition u_path_spec (v : variant) (n : nat) (ops : list (@uop Z)) (s t : nat) (im : path_impl) :=
+  match gfinal (ustep false v) (init n) ops with None => [] | Some g => path_spec (adj g) s t im end.
+Definition dw_dj_case (v : variant) (n : nat) (ops : list wop) (s : nat) (cs : list nat) :=
+  match gfinal (dw_step v) (dm_init n) ops with None => [] | Some m => dj_case (v_force_checks v) (wadj_of (mg m)) s cs end.
+Definition uw_dj_case (v : variant) (n : nat) (ops : list wop) (s : nat) (cs : list nat) :=
+  match gfinal (uw_step v true) (dm_init n) ops with None => [] | Some m => dj_case (v_force_checks v) (uwadj_of (mg m)) s cs end.
+Definition dw_dj_spec (v : variant) (n : nat) (ops : list wop) (s : nat) (ipred : list Z) (cs : list nat) :=
+  match gfinal (dw_step v) (dm_init n) ops with None => [] | Some m => dj_spec (wadj_of (mg m)) s ipred cs end.
+Definition uw_dj_spec (v : variant) (n : nat) (ops : list wop) (s : nat) (ipred : list Z) (cs : list nat) :=
+  match gfinal (uw_step v true) (dm_init n) ops with None => [] | Some m => dj_spec (uwadj_of (mg m)) s ipred cs end.
